@@ -134,8 +134,10 @@ def _batches(chk, exe, model, state, samples, quick):
     if b:
         vlib.digest_batch(chk, b[0], b[1], classify, state)
         samples += [c[:300] for c in b[0][:1]]
-    b = vlib.run_batch(chk, "%s det -jobs %s -procs %d -reps 6 -opts %s -out {out}" %
-                       (exe, os.path.join(corpus, "det_jobs.jsonl"), procs + 3, "x" if quick else "all"), model, "corpus_det", timeout=1200)
+    # corpus plans are planned often: a two-element Go map starts its iteration at the "other" element in about
+    # one run of eight, so a map-order dependence needs a few dozen runs to show up reliably
+    b = vlib.run_batch(chk, "%s det -jobs %s -procs %d -reps 12 -opts %s -out {out}" %
+                       (exe, os.path.join(corpus, "det_jobs.jsonl"), 8 if quick else 16, "x" if quick else "all"), model, "corpus_det", timeout=1200)
     if b:
         vlib.digest_batch(chk, b[0], b[1], classify, state)
     # ---- generated
@@ -150,7 +152,7 @@ def _batches(chk, exe, model, state, samples, quick):
     if b:
         vlib.digest_batch(chk, b[0], b[1], classify, state)
         samples += [c[:300] for c in b[0][:1]]
-        dist["rename"] = {"cases": len(b[0]), "by_style": {s: _count(b[0], "(c09 rename %s " % s) for s in ()},
+        dist["rename"] = {"cases": len(b[0]),
                           "styles": {st: sum(1 for c in b[0] if re.match(r"\(c09 rename \w+ %s " % st, c)) for st in
                                      ("lit", "var", "ren", "mix", "frag", "short")},
                           "prepare_rejected": _count(b[0], "(prepare-error")}
